@@ -82,4 +82,26 @@ def handleEvf : List String → String
   | t :: env => "ok " ++ encOI (evalTextF (decEnv env) (decStr t))
   | _ => "bad-op"
 
+
+/-- `block <cpre> <fpre> <ename> <scopeword> <nsscope> <inclass 0|1> <pytype> <member>*`
+    answer `ok <cblock> <fblock> <pyitems> <evalBlockC> <evalBlockF>`; blocks are line lists (`encStrs`) -/
+def handleBlock : List String → String
+  | cpre :: fpre :: ename :: sw :: nss :: ic :: pyt :: members =>
+    match members.mapM decMember with
+    | none => "bad-member"
+    | some ms =>
+      let sword := decStr sw
+      let c : Cfg := { cpre := decStr cpre, fpre := decStr fpre, ename := decStr ename, isScoped := !sword.isEmpty }
+      let b : BlockCfg := { cfg := c, nsScope := decStr nss, scopeWord := sword, inClass := ic == "1", pyType := decStr pyt }
+      let os := enumMembers c ms
+      let cb := cBlock b os
+      let fb := fBlock b os
+      "ok " ++ encStrs cb ++ " " ++ encStrs fb ++ " " ++ encStrs (pyItems b ms) ++ " " ++
+        encVals (evalBlockC cb) ++ " " ++ encVals (evalBlockF fb)
+  | _ => "bad-op"
+
+/-- `evbc <line>*` / `evbf <line>*`: read back a block given as encoded lines -/
+def handleEvbc (ls : List String) : String := "ok " ++ encVals (evalBlockC (ls.map decStr))
+def handleEvbf (ls : List String) : String := "ok " ++ encVals (evalBlockF (ls.map decStr))
+
 end Driver
